@@ -42,6 +42,16 @@ def run(ck, rng):
         bf = rng.choice(BF_CHOICES)
         vname = rng.choice(["out", "md", "md", "md_dep", "root", "root_dep"])
         massive = rng.random() < 0.25
+        if not hostile and not massive and rng.random() < 0.1:
+            # the same root block twice (equal root names are separate roots): the second pass finds everything in place
+            first = []
+            for d, nm in items:
+                if d == 1 and first:
+                    break
+                first.append((d, nm))
+            items = items + first
+            if rng.random() < 0.5:
+                exts = [b".md", b".go"]
         roots = merged_items(items)
         its = roots[0] if vname.startswith("root") else [it for r in roots for it in r]
         rlist = [roots[0]] if vname.startswith("root") else roots
